@@ -17,13 +17,13 @@
 (*                                                                         *)
 (* QDef transcribes the *definitions* of the same names from qelib1.inc    *)
 (* (bodies over the built-ins U and CX) and stdgates.inc; TLC checks       *)
-(* (QasmGen.tla, invariant DefAgreesWithTable) that every table entry      *)
+(* (QelibSelf.tla, invariant DefAgreesWithTable) that every table entry      *)
 (* equals its definition up to a global phase, over the angle lattice.     *)
 (* Angles: integer a means theta = a*4*pi/N, so pi = N/4.                  *)
 (***************************************************************************)
 EXTENDS Gates
 
-PI == N \div 4
+QPI == N \div 4
 
 OneQ0 == {"id", "x", "y", "z", "h", "s", "sdg", "t", "tdg", "sx"}
 OneQ1 == {"rx", "ry", "rz", "u1", "p", "phase"}
@@ -50,13 +50,24 @@ QBase(s) ==
     [] q = "ccx" -> MToffoli [] q = "cswap" -> MCSWAP
     [] q = "crx" -> MCRX(p[1]) [] q = "cry" -> MCRY(p[1]) [] q = "crz" -> MCRZ(p[1])
     [] q \in {"cu1", "cp", "cphase"} -> MCPhase(p[1])
-    [] q = "cu3" -> CtrlM(MU3(p[1], p[2], p[3]), <<1>>)
+    [] q = "cu3" -> Bind(MU3(p[1], p[2], p[3]), LAMBDA u : CtrlM(u, <<1>>))
     \* cu(theta, phi, lambda, gamma) = (phase gamma on the control) . controlled-u3(theta, phi, lambda)
-    [] q = "cu" -> MatMul(Kron(MPhase(p[4]), MI), CtrlM(MU3(p[1], p[2], p[3]), <<1>>))
+    [] q = "cu" -> MatMul(Kron(MPhase(p[4]), MI), Bind(MU3(p[1], p[2], p[3]), LAMBDA u : CtrlM(u, <<1>>)))
     \* gphase(gamma): the scalar e^{i gamma} (1 x 1; under ctrl @ it becomes the phase gate p(gamma) on the control)
     [] q = "gphase" -> Mx(0, << <<P(p[1])>> >>)
 
-QasmM(s) == ApplyMods(QBase(s), s.mods, 1)
+\* modifiers, innermost first.  Every level is bound to a VALUE before it is used: TLC re-evaluates an operator argument
+\* at each reference, and CtrlM references its argument once per matrix entry.
+RECURSIVE QMods(_, _, _)
+QMods(mat, mods, i) ==
+  IF i > Len(mods) THEN mat ELSE
+  Bind(mat, LAMBDA mt :
+    QMods(CASE mods[i].t = "adj" -> Dagger(mt)
+            [] mods[i].t = "pow" -> MatPow(mt, mods[i].z)
+            [] mods[i].t = "ctrl" -> CtrlM(mt, mods[i].cv), mods, i + 1))
+QasmM(s) == QMods(QBase(s), s.mods, 1)
+\* the tape side: Gates.tla's table entry with the same (bound) modifier application
+GateMB(r) == QMods(GateBase(r), r.mods, 1)
 
 (* ------------------------------------------------------------------ definitions (qelib1.inc / stdgates.inc) *)
 GR(g, w, p) == [g |-> g, w |-> w, p |-> p, x |-> <<>>, m |-> <<>>, mods |-> <<>>]
@@ -64,18 +75,18 @@ MatR(mat, w) == [g |-> "MAT", w |-> w, p |-> <<>>, x |-> <<>>, m |-> mat, mods |
 dU(t, f, l, a) == << GR("U3", <<a>>, <<t, f, l>>) >>          \* built-in U(theta,phi,lambda) of OpenQASM 2.0
 dCX(c, t)  == << GR("CNOT", <<c, t>>, <<>>) >>               \* built-in CX
 du3(t, f, l, a) == dU(t, f, l, a)
-du2(f, l, a) == dU(PI \div 2, f, l, a)
+du2(f, l, a) == dU(QPI \div 2, f, l, a)
 du1(l, a) == dU(0, 0, l, a)
 did(a) == dU(0, 0, 0, a)
-dx(a) == du3(PI, 0, PI, a)
-dy(a) == du3(PI, PI \div 2, PI \div 2, a)
-dz(a) == du1(PI, a)
-dh(a) == du2(0, PI, a)
-ds(a) == du1(PI \div 2, a)
-dsdg(a) == du1(-(PI \div 2), a)
-dt(a) == du1(PI \div 4, a)
-dtdg(a) == du1(-(PI \div 4), a)
-drx(t, a) == du3(t, -(PI \div 2), PI \div 2, a)
+dx(a) == du3(QPI, 0, QPI, a)
+dy(a) == du3(QPI, QPI \div 2, QPI \div 2, a)
+dz(a) == du1(QPI, a)
+dh(a) == du2(0, QPI, a)
+ds(a) == du1(QPI \div 2, a)
+dsdg(a) == du1(-(QPI \div 2), a)
+dt(a) == du1(QPI \div 4, a)
+dtdg(a) == du1(-(QPI \div 4), a)
+drx(t, a) == du3(t, -(QPI \div 2), QPI \div 2, a)
 dry(t, a) == du3(t, 0, 0, a)
 drz(f, a) == du1(f, a)
 dcz(a, b) == dh(b) \o dCX(a, b) \o dh(b)
@@ -89,16 +100,16 @@ dcswap(a, b, c) == dCX(c, b) \o dccx(a, b, c) \o dCX(c, b)
 Hf(a) == a \div 2
 dcrz(l, a, b) == du1(Hf(l), b) \o dCX(a, b) \o du1(-Hf(l), b) \o dCX(a, b)
 dcu1(l, a, b) == du1(Hf(l), a) \o dCX(a, b) \o du1(-Hf(l), b) \o dCX(a, b) \o du1(Hf(l), b)
-dcrx(l, a, b) == du1(PI \div 2, b) \o dCX(a, b) \o du3(-Hf(l), 0, 0, b) \o dCX(a, b) \o du3(Hf(l), -(PI \div 2), 0, b)
+dcrx(l, a, b) == du1(QPI \div 2, b) \o dCX(a, b) \o du3(-Hf(l), 0, 0, b) \o dCX(a, b) \o du3(Hf(l), -(QPI \div 2), 0, b)
 dcry(l, a, b) == dry(Hf(l), b) \o dCX(a, b) \o dry(-Hf(l), b) \o dCX(a, b)
 dcu3(t, f, l, c, tt) == du1(Hf(l + f), c) \o du1(Hf(l - f), tt) \o dCX(c, tt) \o du3(-Hf(t), 0, -Hf(f + l), tt)
                         \o dCX(c, tt) \o du3(Hf(t), f, 0, tt)
 \* stdgates.inc (OpenQASM 3): U3(theta,phi,lambda) := e^{i theta/2} U2(theta,phi,lambda);  p(l) = ctrl @ gphase(l);
 \* sx = pow(1/2) @ x (principal root);  cp = ctrl @ p;  cu(t,f,l,g) a,b { p(g - t/2) a; ctrl @ U3(t,f,l) a,b; }
-U3new(t, f, l) == MScale(E(t), MU3(t, f, l))
+U3new(t, f, l) == Bind(MU3(t, f, l), LAMBDA u : MScale(E(t), u))
 dp(l, a) == << MatR(CtrlM(Mx(0, << <<P(l)>> >>), <<1>>), <<a>>) >>
 dcp(l, a, b) == << MatR(CtrlM(CtrlM(Mx(0, << <<P(l)>> >>), <<1>>), <<1>>), <<a, b>>) >>
-dcu(t, f, l, g, a, b) == << MatR(Diag(0, <<One, Zeta(2*g - t)>>), <<a>>), MatR(CtrlM(U3new(t, f, l), <<1>>), <<a, b>>) >>
+dcu(t, f, l, g, a, b) == << MatR(Diag(0, <<One, Zeta(2*g - t)>>), <<a>>), MatR(Bind(U3new(t, f, l), LAMBDA u : CtrlM(u, <<1>>)), <<a, b>>) >>
 
 QDef(s) ==
   LET q == s.q  p == s.p IN
